@@ -241,3 +241,101 @@ def thread_run_injected(ex, lid, prop, cls=TW, budget=1):
         raises={'WorkerTerminatedError': None}, raises_only=['WorkerTerminatedError'],
         inject=InjectCfg([TW + '._run', W + '.do_work', W + '.run'], budget=budget, kinds=('wte',), region=region, split_store=True),
         options={'__opaque_call__': user_call_inj, 'target_raises': ['AnyException', 'AnyBaseException']})
+
+
+# ------------------------------------------------------------------------------ remote backend
+def backend_child(ex, env, cls=RW):
+    """a RemoteWorker as it arrives in the spawned backend process, about to execute _run_backend"""
+    I = ex.interp
+    ci = ex.repo.cls(cls)
+    sock = common.new_chan(ex, 'Conn', 'data')
+    comms, cends = common.make_pipe(ex, 'comms', 'Pipe')
+    ctrl, ctends = common.make_pipe(ex, 'ctrl', 'Pipe')
+    target = I.sym('target')
+    args = ex.alloc(HSymList(ex.fresh('args', SeqVal)))
+    kwargs = common.new_odict(ex, ex.fresh('kwargs', Val))
+    th = I.sym('target_host')
+    attrs = {'_socket': sock, '_comms': comms, '_ctrl_comms': ctrl, '_target': target, '_args': args, '_kwargs': kwargs,
+             '_payload': NONE, '_host': I.sym('server_host'), '_pid': I.sym('server_pid'), '_tid': I.sym('stid'), '_ident': I.sym('sident'),
+             '_target_host': th, '_reset_sigterm_hnd': I.sym('reset_hnd', 'bool'), '_is_backend': VBool(False), '_remote_side': VBool(True),
+             '_set_names': I.sym('set_names', 'bool'), '_name': I.sym('name'), '_main_path': NONE, '_user_state': I.sym('state0'),
+             '_started': VBool(True), '_context': I.sym('context'), '_result': NONE}
+    self_v = ex.alloc(HObj(ci, attrs))
+    cur_pid = ex.ext_models['os.getpid'](ex, [], {})
+    ex.assume(cur_pid.t != attrs['_pid'].t)
+    env.update(self=self_v, out=sock, target=target, args0=VSeq(ex.heap[args.addr].seq),
+               kw0=VSym(ex.abs_classes['ODict'].get(ex, kwargs, 'content')), target_host=th)
+    ex.ghost['calls'] = z3.Empty(SeqVal)
+    ex.ghost['ncalls'] = z3.IntVal(0)
+    ex.ghost['__childenv__'] = env
+    ac = ex.abs_classes['Conn']
+    ac.methods['getpeername'] = lambda ex_, a, k: VSym(ex_.fresh('peername', Val))
+    ac.methods['getsockname'] = lambda ex_, a, k: env['target_host']
+    ac.methods['shutdown'] = lambda ex_, a, k: (ex_.abs_classes['Conn'].set(ex_, a[0], 'peer_closed', ex_.abs_classes['Conn'].get(ex_, a[0], 'peer_closed')), NONE)[1]
+    ex.ext_models['signal.signal'] = lambda ex_, a, k: NONE
+    ex.call_hooks['pyworkers.remote.set_linger'] = lambda I_, fi, a, k, n, s: NONE
+    return self_v
+
+
+def backend_run_contract(ex, lid, prop, cls=RW, inject=None):
+    def setup(ex_, env):
+        backend_child(ex_, env, cls)
+
+    def first_is_pair(c):
+        ex_ = c.ex
+        out = ex_.abs_classes['Conn'].get(ex_, c.env['out'], 'out')
+        x = out[0]
+        lst = Val.vitems(x)
+        pair = z3.And(Val.is_v_tup(x), ValList.is_vl_cons(lst), Val.is_v_bool(ValList.vl_hd(lst)), ValList.is_vl_cons(ValList.vl_tl(lst)),
+                      ValList.is_vl_nil(ValList.vl_tl(ValList.vl_tl(lst))))
+        gone = ex_.ghost.get('data_send_failed', z3.BoolVal(False))
+        return z3.Or(gone, z3.And(z3.Length(out) >= 1, pair))
+    first_is_pair.__doc__ = ('channel invariant B.3: whatever ends the backend (return, Exception, BaseException), the first message it writes on the data '
+                             'socket is a pair (flag, value) - never None (unless the connection itself is gone)')
+
+    def genuine(c):
+        ex_ = c.ex
+        out = ex_.abs_classes['Conn'].get(ex_, c.env['out'], 'out')
+        gone = ex_.ghost.get('data_send_failed', z3.BoolVal(False))
+        x = out[0]
+        return z3.Or(gone, c03_pair_ok_or_none(ex_, c, x))
+    genuine.__doc__ = ('the pair is (True, target(*args, **kwargs)) if the target returned, (False, its exception) if it raised an Exception, and '
+                       '(False, None) only if it was ended by a BaseException')
+
+    def state_second(c):
+        ex_ = c.ex
+        out = ex_.abs_classes['Conn'].get(ex_, c.env['out'], 'out')
+        h = ex_.heap[c.env['self'].addr].attrs
+        gone = ex_.ghost.get('data_send_failed', z3.BoolVal(False))
+        return z3.Or(gone, z3.And(z3.Length(out) == 2, out[1] == lower(h['_user_state'], ex_)))
+    state_second.__doc__ = 'C16.L2 (remote): the second and last message is the user_state as last assigned in the child'
+
+    def send_hook(interp, fi, args, kwargs, node, self_cls):
+        try:
+            return common.msg_send_hook(interp, fi, args, kwargs, node, self_cls)
+        except common.PyRaise:
+            interp.ex.ghost['data_send_failed'] = z3.BoolVal(True)
+            raise
+    hooks = dict(common.MSG_HOOKS)
+    hooks['pyworkers.remote.send_msg'] = send_hook
+    return Contract(
+        cls + '._run_backend', lid=lid, name=f'{prop}.{lid} RemoteWorker._run_backend always reports a pair then the user_state on the data socket',
+        params={'self': ('const', None)}, self_class=cls, setup=setup,
+        all_exits=[first_is_pair, genuine, state_second],
+        raises={'AnyBaseException': None, 'ConnectionClosedError': None}, raises_only=['AnyBaseException', 'ConnectionClosedError'],
+        inject=inject,
+        options={'__opaque_call__': user_call_inj, 'target_raises': ['AnyException', 'AnyBaseException'], 'recv_closed_check': False,
+                 '__call_hooks__': hooks, 'send_raises': {'data': ['ConnectionClosedError']}, 'assert_mode': 'oblige',
+                 'chan_elem_inv': {'comms.child': lambda ex_, x, i: z3.BoolVal(True)}})
+
+
+def c03_pair_ok_or_none(ex, c, pair):
+    lst = Val.vitems(pair)
+    flag = Val.vb(ValList.vl_hd(lst))
+    value = ValList.vl_hd(ValList.vl_tl(lst))
+    killed_by_base = z3.And(z3.BoolVal(ex.ghost.get('target_exc') is not None and ex.exc.is_sub(ex.ghost['target_exc'].cls, 'BaseException')
+                                       and not ex.exc.is_sub(ex.ghost['target_exc'].cls, 'Exception')),
+                            z3.Not(flag), value == Val.v_none)
+    never_called = smt.simp(ex.ghost['ncalls'] == 0)
+    failed_before_target = z3.And(never_called, z3.Not(flag), Val.is_v_exc(value))     # start-up failure of the worker machinery itself
+    return z3.Or(c03_pair_ok(ex, c, pair), killed_by_base, failed_before_target)
